@@ -23,14 +23,17 @@
 #define HEAP_RA_CAPSLOTS 32
 #endif
 #endif
-#if HEAP_RA_CAPSLOTS > 32
-#error "HEAP_RA_CAPSLOTS > 32: extend the copy list"
+/* the pointer-wise copy list below covers old logical sizes up to 32 pointers (checked at run time) */
+
+/* capacity of the objects the harness hands in (defaults to the capacity of the objects made here) */
+#ifndef HEAP_RA_OLDCAPSLOTS
+#define HEAP_RA_OLDCAPSLOTS HEAP_RA_CAPSLOTS
 #endif
 
 void * g_heap_ra_buf;		/* ghost: the tracked buffer ... */
 size_t g_heap_ra_size;		/* ... and its logical size in bytes */
 
-#define RA_CP_(j) if ((j) < HEAP_RA_CAPSLOTS && (j) < ncopy) nw[j] = old[j];
+#define RA_CP_(j) if ((j) < HEAP_RA_CAPSLOTS && (j) < HEAP_RA_OLDCAPSLOTS && (j) < ncopy) nw[j] = old[j];
 
 void *
 realloc(void * ptr, size_t size)
@@ -54,6 +57,10 @@ realloc(void * ptr, size_t size)
 		__CPROVER_assert(ptr == g_heap_ra_buf, "MODEL-BOUND realloc: only the tracked pointer-list buffer is modelled");
 		osize = g_heap_ra_size;
 		ncopy = (osize < size ? osize : size) / sizeof(void *);
+		if (ncopy > 32) {
+			__CPROVER_assert(0, "MODEL-BOUND realloc: more than 32 pointers to copy");
+			__CPROVER_assume(0);
+		}
 		nw = malloc(HEAP_RA_CAPSLOTS * sizeof(void *));
 		if (nw == NULL)
 			return (NULL);
